@@ -230,7 +230,7 @@ class WrapperDelegation(Unit):
                     failures=[dict(call=rp['call'], observed=rp['observed'], witness='delegation')] if rp['confirmed'] else [])
 
 
-def units(tier):
+def _own_units(tier):
     us = [Glue(), WrapperDelegation()]
     for u, nm in ((c01.CipherFile(), 'C18.stream.file'), (c01.CipherSocket(), 'C18.stream.socket'), (c10.EncStep(), 'C18.installation')):
         u.prop, u.name = 'C18', nm
@@ -242,3 +242,8 @@ def units(tier):
     rl.prop, rl.name = 'C18', 'C18.reads-through-current-transport'
     us.append(rl)
     return us
+
+
+def units(tier):
+    from .deps import dependency_units
+    return _own_units(tier) + dependency_units('C18')
